@@ -84,8 +84,8 @@ func ToBinary(i interface{}) (interface{}, error) {
 		case reflect.Array:
 			if v.Type().Elem().Kind() == reflect.Uint8 {
 				b := make([]uint8, v.Len())
-				if n := reflect.Copy(reflect.ValueOf(b), v); n != v.Len() {
-					return nil, fmt.Errorf("%w: %#v (%T)", ErrUnableToCastToBinary, i, i)
+				for n := range b {
+					b[n] = uint8(v.Index(n).Uint())
 				}
 
 				return b, nil
